@@ -129,6 +129,41 @@ struct StackPointerOffsetAnalysis {
 }
 
 impl StackPointerOffsetAnalysis {
+    // If the expression is the stack pointer plus or minus constants, return
+    // the offset it yields given the current offset of the stack pointer.
+    // Anything else (masking the stack pointer, an absolute value, a value
+    // computed from other scalars) is not an offset from the entry value.
+    fn offset_expression(
+        &self,
+        expression: &il::Expression,
+        offset: &il::Constant,
+    ) -> Option<il::Constant> {
+        match *expression {
+            il::Expression::Scalar(ref scalar) if *scalar == self.stack_pointer => {
+                Some(offset.clone())
+            }
+            il::Expression::Add(ref lhs, ref rhs) => {
+                if rhs.all_constants() {
+                    self.offset_expression(lhs, offset)?
+                        .add(&eval(rhs).ok()?)
+                        .ok()
+                } else if lhs.all_constants() {
+                    eval(lhs)
+                        .ok()?
+                        .add(&self.offset_expression(rhs, offset)?)
+                        .ok()
+                } else {
+                    None
+                }
+            }
+            il::Expression::Sub(ref lhs, ref rhs) if rhs.all_constants() => self
+                .offset_expression(lhs, offset)?
+                .sub(&eval(rhs).ok()?)
+                .ok(),
+            _ => None,
+        }
+    }
+
     // Handle an operation for stack pointer offset analysis
     fn handle_operation(
         &self,
@@ -142,12 +177,9 @@ impl StackPointerOffsetAnalysis {
                     match stack_pointer_offset {
                         IntermediateOffset::Top => IntermediateOffset::Top,
                         IntermediateOffset::Value(ref constant) => {
-                            let expr =
-                                src.replace_scalar(&self.stack_pointer, &constant.clone().into())?;
-                            if expr.all_constants() {
-                                IntermediateOffset::Value(eval(&expr)?)
-                            } else {
-                                IntermediateOffset::Top
+                            match self.offset_expression(src, constant) {
+                                Some(offset) => IntermediateOffset::Value(offset),
+                                None => IntermediateOffset::Top,
                             }
                         }
                         IntermediateOffset::Bottom => IntermediateOffset::Bottom,
